@@ -226,3 +226,9 @@ PX("C15", "C15_conc", "Pull batches respect their size limit and are empty only 
  ("C15c_outcomes", "C15_outcomes", "every outcome of a consumer is one of: messages (at least one), empty by limit, error, NOT_FOUND"),
  ("C15c_empty_reply_continues", "C15_empty_reply_continues", "an empty reply from the actor makes a blocking consumer wait, not return"),
 ])
+PX("C11", "C11_actors", "Deletion keeps topics and subscriptions consistent with each other", HDR_ACTORS, "ConcActorsP.v", [
+ ("C11c_quiescent_exact", "C11_quiescent_exact", "actor model of the repaired code (draining delete, attach guard), any number of topics, subscriptions and clients, every interleaving incl. dropped callers: at every quiescent reachable state the attachment list of a live topic is exactly the set of subscriptions that exist, are not deleted and were created on it"),
+ ("C11c_attached_only_live", "C11_attached_only_live", "one half: whatever a live topic lists exists and is not deleted"),
+ ("C11c_live_are_attached", "C16_attached", "the other half: every existing, undeleted subscription of a live topic is listed"),
+ ("C11c_refuted_without_guard", "C11_refuted_without_guard", "the code before fix 2446012: a reachable quiescent state in which a live topic lists a subscription that no longer exists, and a later Publish fails (found on the implementation by harness racestress)"),
+])
